@@ -158,6 +158,24 @@ func runCheck(w *World, prop string, timeoutS int, confirm bool, known *KnownFil
 			}
 		}
 	}
+	// closed-world premise of every protocol whose methods belong to this property
+	for _, rel := range w.pkgOrder {
+		cf := w.contracts[rel]
+		if cf == nil {
+			continue
+		}
+		for _, ps := range cf.Protocols {
+			uses := false
+			for _, r := range res.Reports {
+				if strings.Contains(r.Key, "(*"+ps.Struct+").") {
+					uses = true
+				}
+			}
+			if uses && (prop == "C02" || prop == "C03") {
+				res.Obls = append(res.Obls, closedWorld(w, rel, ps, prop)...)
+			}
+		}
+	}
 	kn := map[string]KnownFinding{}
 	for _, k := range known.Findings {
 		if k.Property == prop {
@@ -509,6 +527,17 @@ var globalAssumptions = []string{
 }
 
 var propAssumptions = map[string][]string{
+	"C02": {
+		"scope: Inbox.Send/schedule/process/run/Start/Stop and goscheduler.Schedule in global-invariant mode; process.Start/Invoke/tryRestart/cleanup for 'runs on the owner thread'; Engine.Spawn/newProcess/NewInbox are not under contract (the first Start is assumed to run on the thread that created the inbox)",
+		"thread-modular reasoning: before every atomic step all shared state of the inbox is arbitrary subject to the invariant and this thread's stable clauses (each stable clause is re-proved after every step of the thread that relies on it)",
+		"sync/atomic: operations on procStatus are totally ordered and publish prior writes (Go memory model); the plain write of in.proc happens between two such operations of the starter",
+		"the step from 'at most one worker token and every Invoke under it' to 'Receive invocations never overlap in time' is a meta-argument (token passing through one atomic word), not a machine-checked obligation",
+		"abstract contracts: Processer.Invoke (requires the token or the unstarted owner; may store `stopped`), Scheduler.Schedule/Throughput; ringbuffer contracts of C14",
+	},
+	"C03": {
+		"scope: the safety invariant 'idle and non-empty implies a pending waker' at every atomic step of the Inbox functions; liveness ('eventually processed') is not decidable by this technique",
+		"thread-modular reasoning and sync/atomic assumptions as for C02; RingBuffer.Len() returns the length at its atomic load, Push adds one at its linearisation point (C14)",
+	},
 	"C01": {
 		"scope: Engine.Send/SendWithSender/send/isLocalMessage/SendLocal, process.Send, Inbox.Send/schedule/run, process.Invoke/invokeMsg (+ package ringbuffer through C14); interleavings of senders and the worker are C02/C03",
 		"thread confinement: Start/Invoke/invokeMsg/tryRestart/cleanup run on the inbox worker or (first Start) on the spawning goroutine, one at a time (C02; not decided by this check)",
